@@ -292,6 +292,12 @@ AnyName(P(_)) ==
   \/ /\ shard = 0
      /\ (P(<<>>) \/ P(Gr) \/ (\E s \in ExtraNames : P(s)) \/ (tree # 2 /\ \E s \in SweepNames : P(s)))
 
+(* extensions.Init "can be called multiple times safely": the configuration of the FIRST call stays in force whatever a later
+   call asks for (a stuttering step of this specification: cfg is chosen once, in Init). The deviation - the flags of the
+   last call win - would make cfg a variable that any step can change; the harness checks the real code against the stuttering
+   reading by calling Init again, with the most and the least permissive configurations, in every second child. *)
+Reinit == UNCHANGED vars
+
 Next ==
   /\ Room                                   \* (first, so that full histories are not expanded name by name)
   /\ \/ /\ F.ls
